@@ -1,7 +1,8 @@
-import Mutagen.Driver.Util
+import Mutagen.Driver.ScanText
 namespace Mutagen.Driver.C12
 
-/-- Model-side handler for one line of the C12 correspondence stream. -/
-def handle (_line : String) : String := "unimplemented"
+/-- Model-side handler for one line of the C12 correspondence stream: one or
+more scans of abstract filesystems (grammar in `Mutagen.Driver.ScanText`). -/
+def handle (line : String) : String := Mutagen.Driver.ScanText.handle line
 
 end Mutagen.Driver.C12
